@@ -818,6 +818,12 @@ class Engine:
             has = z3.Select(z3.Select(st.heap[base.key + '#has'], base.owner), kz)
             raises.append((z3.Not(has), 'KeyError'))
             return self.wrap(base.vkind, z3.Select(z3.Select(st.heap[base.key + '#val'], base.owner), kz)), raises
+        if isinstance(base, VDyn) and isinstance(idx, VInt) and z3.is_int_value(zsimp(idx.z)) \
+                and zsimp(idx.z).as_long() in (0, 1):
+            from .values import tuple_parts
+            ist, items = tuple_parts(base.z, 2)
+            raises.append((z3.Not(ist), 'TypeError'))
+            return VDyn(items[zsimp(idx.z).as_long()]), raises
         if isinstance(base, VConf):
             if isinstance(idx, VDyn):       # a key that is not a str is never present
                 key = T.Val.sval(idx.z)
